@@ -158,6 +158,14 @@ def plan(tier, seed):
         for kind, extra in (("strain", {"plane": "stress", "field": "normal", "x": XCLS[0], "nu": NUCLS[0]}),
                             ("average", {"ndof": 2, "off": OFFS[0]})):
             cases.append(dict({"kind": kind, "n": list(g), "h": HCLS[0], "rep": 0}, **extra))
+    # ---- more dofs per node than space dimensions (temperature + displacements, 4 fields in 2D), on grids whose highest dof number
+    # crosses 255 / 65535 while the highest node number times the dimension does not (and the other way round)
+    wide = [([9, 9, 0], 3), ([10, 9, 0], 3), ([8, 8, 0], 4), ([7, 7, 0], 5), ([4, 3, 3], 4), ([3, 3, 3], 4), ([12, 12, 0], 3)]
+    wide += [([150, 150, 0], 3)] if quick else [([150, 150, 0], 3), ([128, 127, 0], 4), ([27, 27, 27], 4), ([104, 104, 0], 5)]
+    for g, ndof in wide:
+        cases.append({"kind": "average", "n": list(g), "ndof": ndof, "off": OFFS[len(cases) % len(OFFS)], "h": HCLS[0], "rep": 0})
+        if g[0] * g[1] * max(g[2], 1) <= 100:
+            cases.append({"kind": "transpose", "n": list(g), "ndof": ndof, "shape": SHAPES[len(cases) % len(SHAPES)], "rep": 0})
     for i, c in enumerate(cases):
         c["id"] = i
     return cases
